@@ -10,7 +10,7 @@
        quotient, and with one indeterminate every term of r has lower degree than the divisor. *)
 From mathcomp Require Import all_ssreflect all_algebra.
 From SsrMultinomials Require Import mpoly.
-From NP Require Import Base Divmod DivmodP DivmodTerm GenDivmod BridgeDivmod.
+From NP Require Import Base Divmod DivmodP DivmodTerm DivmodExact GenDivmod BridgeDivmod.
 Set Implicit Arguments. Unset Strict Implicit. Unset Printing Implicit Defensive.
 Import GRing.Theory.
 Local Open Scope ring_scope.
@@ -74,6 +74,21 @@ Proof. exact: run_more. Qed.
 (* an exhausted budget is reported as such, never as a result *)
 Theorem C05_out_of_fuel_is_an_error (es : seq (elem F)) : run 0 es = Err OutOfFuel.
 Proof. by []. Qed.
+(* exact multiples: if the dividend of element i is Q0 * divisor (divisor non-zero), the remainder has no term left
+   and the quotient is Q0 - for every number of indeterminants, every divisor, several incomparable top terms included *)
+Theorem C05_exact_multiple fuel (fs gs : seq (spoly F)) out i (e2 : mono) (Q0 : {mpoly F[n]}) :
+  size fs = size gs -> all (wp n) fs -> all (wp n) gs ->
+  divmod fuel fs gs = Ok out -> (i < size fs)%N ->
+  lead (norm (nth [::] gs i)) = Some e2 ->
+  absS n (nth [::] fs i) = Q0 * absS n (nth [::] gs i) ->
+  support (nth ([::], [::]) out i).2 = [::] /\ absS n (nth ([::], [::]) out i).1 = Q0.
+Proof. exact: divmod_exact. Qed.
+
+(* why: the top terms of a product never cancel in the numpy.lexsort order *)
+Theorem C05_top_terms_multiply (E G : {mpoly F[n]}) a b :
+  top E a -> top G b -> (E * G)@_(a + b)%MM = E@_a * G@_b.
+Proof. exact: top_coeff. Qed.
+
 End C05.
 
 Theorem C05_control_flow_of_the_source : gen_divmod_facts = nseq 10 true.
@@ -89,6 +104,15 @@ Example C05_example_terminates :
   else false.
 Proof. by vm_compute. Qed.
 
+(* exact multiple, two indeterminants, divisor with incomparable top terms: (q1^2 - 2 q0)(q0 + 3) / (q1^2 - 2 q0) *)
+Example C05_example_exact :
+  let g : spoly Q := [:: ([:: 0; 2]%N, 1); ([:: 1; 0]%N, -2%:Q)] in
+  let f : spoly Q := [:: ([:: 1; 2]%N, 1); ([:: 2; 0]%N, -2%:Q); ([:: 0; 2]%N, 3%:Q); ([:: 1; 0]%N, -6%:Q)] in
+  if divmod 6 [:: f] [:: g] is Ok [:: (q, r)]
+  then perm_eq q [:: ([:: 1; 0]%N, 1); ([:: 0; 0]%N, 3%:Q)] && (r == [::]) && (lead (norm g) == Some [:: 0; 2]%N)
+  else false.
+Proof. by vm_compute. Qed.
+
 Print Assumptions C05_identity.
 Print Assumptions C05_step_invariant.
 Print Assumptions C05_remainder_reduced.
@@ -99,4 +123,6 @@ Print Assumptions C05_every_state_terminates.
 Print Assumptions C05_iteration_decreases.
 Print Assumptions C05_budget_irrelevant.
 Print Assumptions C05_out_of_fuel_is_an_error.
+Print Assumptions C05_exact_multiple.
+Print Assumptions C05_top_terms_multiply.
 Print Assumptions C05_control_flow_of_the_source.
